@@ -150,7 +150,7 @@ theorem finishApply_keeps_locked_nodes (t : Rel) (op : UOp) (res : Res) (h : op.
     ∀ n, n ∈ lockedNodes (res.get t) → n ∈ lockedNodes t := by
   have := finishApply_pres (fun r => ∀ n, n ∈ lockedNodes r → n ∈ lockedNodes t) (fun _ => True) (fun _ => True)
     (fun up t' c hp => ⟨by simpa [lockedNodes] using hp, trivial⟩)
-    (fun op t' c hp _ => by simpa [lockedNodes] using hp)
+    (fun op t' c hp _ _ => by simpa [lockedNodes] using hp)
     (fun _ _ _ _ _ _ => trivial) t op res (fun _ hn => hn) trivial h
   exact this
 
